@@ -156,7 +156,18 @@ META["C10"] = dict(
     design_ref="DESIGN.md section 4 / C10", note=_DBNOTE + " murmur3, the leader's parallel map/sort pipeline, follower start-up timers and gRPC are outside the model; only caught-up states are observed.",
     technique="Coq proof (routing function, merge homomorphism over partitions, group confinement) + in-process cluster vs specification model differential")
 
+META["C13"] = dict(
+    text=("Theorems (Props/C13.v): in the model of fileStore.iterate under a deadline (file rows, then memstore rows, guard checked after "
+          "every row) a scan that reports no error has delivered every row, so every omission is reported — including deadlines that "
+          "strike inside the memstore part (the shipped code dropped that error: refuted witness in Proofs/ReportP.v). Correspondence: "
+          "deadlines at every placement on the embedded API, failing/slow partitions on an in-process cluster, timeouts and size limits on "
+          "the web API; each outcome must be complete or told."),
+    design_ref="DESIGN.md section 4 / C13",
+    note=("PARTIAL: the theorem covers the table scan; group/flatten/sort/limit and queryCluster's bookkeeping are tied by the fault-injection "
+          "correspondence only. HTTP 200 with Stats.MissingPartitions in the body on a cluster leader counts as told (statistics clause of the property)."),
+    technique="Coq proof (scan under a step-counted deadline) + exhaustive fault lattice on the real embedded, cluster and web APIs")
+
 NOT_APPLICABLE = [
     {"property_id": p, "reason": _PENDING}
-    for p in ["C02", "C11", "C12", "C13", "C20"]
+    for p in ["C02", "C11", "C12",  "C20"]
 ]
